@@ -1156,6 +1156,8 @@ func runCase(raw json.RawMessage) interface{} {
 		return runBase(c)
 	case "backends":
 		return runBackends(c)
+	case "registry":
+		return runRegistry(raw)
 	}
 	return runSched(c)
 }
